@@ -134,6 +134,30 @@ class Graph:
             n = Node(base + bi, inst, bi, b)
             self.nodes.append(n)
             inst.bmap.append(base + bi)
+        # drop glue of a local value whose type has a Drop impl written in this crate but is NOT one of the crate's own handle / vector types
+        # (a scope guard declared inside a function): its destructor body is expanded at the drop, so what it does on the unwind path is seen
+        for bi, b in enumerate(fn["blocks"]):
+            t = b["term"]
+            if t["k"] != "drop" or depth + 1 > self.max_depth:
+                continue
+            dty = self.tcx.subst(t.get("ty", {}), subst)
+            if dty.get("k") != "adt":
+                continue
+            a = self.fx.adts.get(dty.get("path"))
+            if not a or not a.get("has_drop_impl") or a.get("reachable") or a.get("vis") == "pub":
+                continue
+            dimpl = [im for im in self.fx.impls if im.get("trait") == "core::ops::Drop" and im["self_ty"].get("path") == dty["path"]]
+            if not dimpl or not dimpl[0]["items"]:
+                continue
+            dfn = self.fx.fns.get(dimpl[0]["items"][0]["path"])
+            if dfn is None or chain.count(dfn["path"]) >= 1:
+                continue
+            denv = {}
+            for g_, a_ in zip([g_ for g_ in dfn["generics"] if g_["kind"] != "lifetime"], [x for x in dty.get("args", []) if x.get("k") != "region"]):
+                denv[g_["name"]] = a_
+            node = self.nodes[base + bi]
+            node.callee_inst = self._instantiate(dfn, denv, inst, node.gid, depth + 1, chain + (dfn["path"],))
+            node.closure_call = "dropglue"
         for bi, b in enumerate(fn["blocks"]):
             t = b["term"]
             if t["k"] != "call":
@@ -199,7 +223,12 @@ class Graph:
             t = n.data["term"]
             k = t["k"]
             inst = n.inst
-            if k == "call" and n.callee_inst is not None:
+            if k == "drop" and n.callee_inst is not None:
+                n.succs.append((n.callee_inst.bmap[0], "normal"))
+                ut = self.unwind_target(inst, t.get("unwind"))
+                if ut is not None:
+                    n.succs.append((ut, "unwind"))
+            elif k == "call" and n.callee_inst is not None:
                 n.succs.append((n.callee_inst.bmap[0], "normal"))
                 if n.closure_call:
                     # the combinator may also skip the closure (false / None)
